@@ -50,7 +50,7 @@ var preimageTable = []preimageRow{
 	{"core", "", "ConcatCounts", 1, "", false, []string{"$eventCount"}, true, "event count"},
 	{"core", "", "ConcatCounts", 2, "", false, []string{"$stateDiffLen"}, true, "state diff length"},
 	// receipts / messages / events / transaction leaves
-	{"core", "TransactionReceipt", "hash", 0, "", false, []string{"TransactionHash", "Fee", "L2ToL1Message", "RevertReason", "TotalGasConsumed"}, false, "receipt hash"},
+	{"core", "TransactionReceipt", "hash", 0, "", false, []string{"TransactionHash", "Fee", "L2ToL1Message", "Reverted", "RevertReason", "TotalGasConsumed"}, false, "receipt hash"},
 	{"core", "", "messagesSentHash", 0, "", false, []string{"$messages"}, false, "L2→L1 messages"},
 	{"core", "", "eventCommitmentPoseidon", 0, "", true, []string{"Event.From", "TxHash", "Event.Keys", "Event.Data"}, false, "event leaf (≥0.13.2)"},
 	{"core", "", "eventCommitmentPedersen", 0, "", true, []string{"From", "Keys", "Data"}, false, "event leaf (<0.13.2)"},
